@@ -1,6 +1,7 @@
 package router
 
 import (
+	"strings"
 	"net/http"
 	"net/url"
 
@@ -365,7 +366,44 @@ func Verif_C03_router() {
 func Verif_C03_handle() {
 	env := &verifEnv{}
 	pr := NewRouter().(*patRouter)
-	switch verifChoose("what", 3) {
+	switch verifChoose("what", 4) {
+	case 3:
+		// 405 + Allow for EVERY supported method: a path served under any subset of the seven
+		// methods, requested with a method outside the subset
+		all := []string{http.MethodDelete, http.MethodGet, http.MethodHead, http.MethodOptions,
+			http.MethodPatch, http.MethodPost, http.MethodPut}
+		var reg [7]bool
+		n := 0
+		for i, m := range all {
+			if reg[i] = verifBool("registered-" + m); reg[i] {
+				verifAssert(pr.Handle(m, "/a", verifH{i + 1, env}) == nil, "a supported method and a rooted path are accepted")
+				n++
+			}
+		}
+		k := verifChoose("requestMethod", 7)
+		verifAssume(!reg[k])
+		w := &verifRW{hdr: http.Header{}}
+		pr.ServeHTTP(w, &http.Request{Method: all[k], URL: &url.URL{Path: "/a"}})
+		verifAssert(len(env.ran) == 0, "no handler runs when the request method has no matching pattern")
+		if n == 0 {
+			verifAssert(w.code == http.StatusNotFound, "404 when no method has a matching pattern")
+			return
+		}
+		verifAssert(w.code == http.StatusMethodNotAllowed, "405 when another method - any of the seven - has a matching pattern")
+		allow := ", " + w.hdr.Get("Allow") + ","
+		listed := 0
+		for i, m := range all {
+			has := strings.Contains(allow, ", "+m+",")
+			verifAssert(has == reg[i], "Allow lists exactly the other methods having a matching pattern (all seven methods)")
+			if has {
+				listed++
+			}
+		}
+		verifAssert(len(allow) == 3 || strings.Count(allow, ",") == listed+1, "Allow is a ', '-separated list without other entries")
+		if reg[3] {
+			verifReach("options-allowed")
+		}
+		verifReach("405-any-method")
 	case 0:
 		m := verifString("method", 7)
 		for _, ok := range []string{http.MethodDelete, http.MethodGet, http.MethodHead, http.MethodOptions,
